@@ -1091,7 +1091,7 @@ class Script(object):
         return [(t, d) for (t, d, f) in self.taken if not f]
 
 
-def explore(machine, thunk, assume=None, max_paths=4096):
+def explore(machine, thunk, assume=None, max_paths=4096, include_forced=False):
     """Run thunk() under every decision sequence. Yields (conditions, result)
     where result is a value, ('panic', msg)."""
     out = []
@@ -1119,5 +1119,6 @@ def explore(machine, thunk, assume=None, max_paths=4096):
             alt = [d for _, d in free[:j]] + [not free[j][1]]
             work.append(alt)
         if res is not None:
-            out.append(([(t, d) for (t, d, _) in sc.taken], res))
+            # forced decisions are assumptions of the exploration, not branches of the program
+            out.append(([(t, d) for (t, d, forced) in sc.taken if not forced or include_forced], res))
     return out
